@@ -215,6 +215,47 @@ def run(ck):
                              {"history": h, "exception": repr(ex)})
             eid += 1
             ck.count()
+    # two LIVE solvers driven in turns (one command each): what one of them pushes, pops or asks leaves the other alone
+    def step(s, c):
+        k = c["c"]
+        if k == "assert":
+            s.add_assertion(fm[c["x"]])
+        elif k == "push":
+            s.push(c["n"])
+        elif k == "pop":
+            s.pop(c["n"])
+        elif k == "reset":
+            s.reset_assertions()
+        elif k == "solve":
+            s.solve()
+        elif k == "solve_assuming":
+            s.solve([fm[c["x"]]])
+        else:
+            getattr(s, k)(fm[c["x"]])
+    pool = [h for h in solver_h if len(h) >= 6 and sum(1 for c in h if c["c"] in ("push", "pop")) >= 2
+            and any(c["c"] == "assert" for c in h)] or [h for h in solver_h if len(h) >= 3]
+    n_pairs = 0
+    for _ in range(300 if quick else 3000):
+        h1, h2 = ck.rng.choice(pool), ck.rng.choice(pool)
+        s1, s2 = make_solver("track"), make_solver("track")
+        o1, o2 = [], []
+        try:
+            for i in range(max(len(h1), len(h2))):
+                if i < len(h1):
+                    step(s1, h1[i])
+                    o1.append(observe(s1, True))
+                if i < len(h2):
+                    step(s2, h2[i])
+                    o2.append(observe(s2, True))
+            for h, o in ((h1, o1), (h2, o2)):
+                evs.append({"id": eid, "kind": "solver_hist", "cmds": h, "obs": o, "impl": "track_interleaved", "public": True})
+                eid += 1
+                ck.count()
+            n_pairs += 1
+        except Exception as ex:
+            ck.violation({"kind": "solver_hist", "clause": "raises", "exc": type(ex).__name__, "impl": "track_interleaved"},
+                         {"history": [h1, h2], "exception": repr(ex)})
+    ck.part("two_interleaved_solvers", pairs=n_pairs)
     verdicts, st = tlc.validate_events("Trace_Pure", evs, constants={"Seed": 0, "Cap": 8})
     ck.add_tlc(st)
     byid = {e["id"]: e for e in evs}
